@@ -6,6 +6,7 @@ package main
 
 import (
 	"fmt"
+	"go/ast"
 	"go/constant"
 	"go/token"
 	"go/types"
@@ -18,10 +19,12 @@ import (
 func init() { register("C10", true, checkC10) }
 
 func checkC10(p *Prog, r *Report) {
-	r.Explain("CONS: every path through the body of ScanJPEG's marker loop — with the marker handlers inlined, paths that return ending the scan exempt — is enumerated and the byte counts it discards are summed as affine expressions in S = int(jr.size): the sum must be S + 2 for a length-bearing marker, 2 for SOI/EOI, 6 for DRI. A callback counts as consuming the window it was declared: ExifLength of the header for the Exif callback (the property's own proviso), limit − N for the io.LimitedReader given to the XMP callback whose residue N must then be discarded; the declared windows must themselves be S − 2 − len(prefix). Arithmetic that can wrap in a narrow type makes the amount undecided (a violation). ACC: on the same paths the amount added to jr.discarded equals the amount consumed, and only discard/peek touch the buffered reader. PFX: every string(buf[a:b]) == literal recogniser has b − a == len(literal) and starts after the 4 bytes of marker and length. MARKER: the Exif and XMP hand-offs are reached only under marker == APP1 and the matching recogniser; the >>4 dispatch constants agree with the marker constants. WINDOW: when nextMarker reports a marker, jr.buf is the full result of the look-ahead peek taken at that marker. STOP: every return inside the marker loop is under marker == DQT, DHT or EOI (the scan never ends early because of what was already seen). HDR: the Exif header comes from the payload's own TIFF header with jr.discarded as its absolute offset. Behaviour over all marker sequences (fill bytes, nested thumbnails) is not decided — only these per-segment invariants.")
+	r.Explain("CONS: every path through the body of ScanJPEG's marker loop — with the marker handlers inlined, paths that return ending the scan exempt — is enumerated and the byte counts it discards are summed as affine expressions in S = int(jr.size): the sum must be S + 2 for a length-bearing marker, 2 for SOI/EOI, 6 for DRI. A callback counts as consuming the window it was declared: ExifLength of the header for the Exif callback (the property's own proviso), limit − N for the io.LimitedReader given to the XMP callback whose residue N must then be discarded; the declared windows must themselves be S − 2 − len(prefix). Arithmetic that can wrap in a narrow type makes the amount undecided (a violation). ACC: on the same paths the amount added to jr.discarded equals the amount consumed, and only discard/peek touch the buffered reader. PFX: every string(buf[a:b]) == literal recogniser has b − a == len(literal) and starts after the 4 bytes of marker and length. PFXREC: each of the seven APP-segment recognisers, evaluated with the predicate grammar of C09, accepts exactly the headers whose bytes 4.. are its identifier constant — no fewer bytes compared (Extended XMP shares 16 bytes with XMP), none other. MARKER: the Exif and XMP hand-offs are reached only under marker == APP1 and the matching recogniser; the >>4 dispatch constants agree with the marker constants. WINDOW: when nextMarker reports a marker, jr.buf is the full result of the look-ahead peek taken at that marker. STOP: every return inside the marker loop is under marker == DQT, DHT or EOI (the scan never ends early because of what was already seen). HDR: the Exif header comes from the payload's own TIFF header with jr.discarded as its absolute offset. Behaviour over all marker sequences (fill bytes, nested thumbnails) is not decided — only these per-segment invariants.")
 	r.Trusted("bufio Peek/Discard all-or-error", "JPEG: SOI/EOI carry no length, DRI has the fixed length 4; APP1 Exif prefix \"Exif\\0\\0\", XMP prefix \"http://ns.adobe.com/xap/1.0/\\0\"")
 	rulePathSum(p, r)
 	rulePFX(p, r, "jpeg", 4)
+	rulePfxRec(p, r)
+	r.Floor("PFXREC", 7)
 	ruleMarker(p, r)
 	ruleWindow(p, r)
 	ruleHDR(p, r, "jpeg")
@@ -942,4 +945,69 @@ func ruleJpegOwn(p *Prog, r *Report) {
 		})
 	}
 	_ = n
+}
+
+// ---- PFXREC: each APP-segment recogniser is exactly "the payload starts with this identifier" -------------------
+//
+// The recognisers decide which APP segments are metadata: isExifPrefix and isXMPPrefix gate the two callbacks,
+// isXMPPrefixExt / isICCProfilePrefix / isPhotoshopPrefix / isJFIFPrefix / isJFIFPrefixExt name segments that are
+// skipped. Each one is evaluated with the predicate grammar of C09 (E7) into a set of accepted headers and must be
+// EQUAL to "bytes 4..4+len(id) are the identifier constant" — comparing fewer bytes accepts a foreign segment whose
+// identifier shares the compared part (Extended XMP shares the first 16 bytes with XMP), comparing other bytes
+// rejects genuine ones.
+var jpegRecognisers = [][2]string{
+	{"isExifPrefix", "exifPrefix"},
+	{"isXMPPrefix", "xmpPrefix"},
+	{"isXMPPrefixExt", "xmpPrefixExt"},
+	{"isICCProfilePrefix", "iccPrefix"},
+	{"isPhotoshopPrefix", "photoshopPrefix"},
+	{"isJFIFPrefix", "jfifPrefix"},
+	{"isJFIFPrefixExt", "jfifPrefixExt"},
+}
+
+func rulePfxRec(p *Prog, r *Report) {
+	pk := p.LibPkg("jpeg")
+	if pk == nil {
+		r.Undecided("PFXREC", "jpeg", "-", "package not loaded")
+		return
+	}
+	for _, rc := range jpegRecognisers {
+		key := fmt.Sprintf("jpeg.%s == (payload starts with %s)", rc[0], rc[1])
+		fobj, _ := pk.Types.Scope().Lookup(rc[0]).(*types.Func)
+		cobj, _ := pk.Types.Scope().Lookup(rc[1]).(*types.Const)
+		if fobj == nil || cobj == nil || cobj.Val().Kind() != constant.String {
+			r.Undecided("PFXREC", key, "-", "unresolved anchor: recogniser or identifier constant not found")
+			continue
+		}
+		fd, fpk := p.declOf(fobj)
+		if fd == nil || fd.Body == nil || fd.Type.Params.NumFields() != 1 || len(fd.Type.Params.List[0].Names) != 1 {
+			r.Undecided("PFXREC", key, "-", "recogniser has no body or an unexpected signature")
+			continue
+		}
+		at := p.posStr(fd.Pos())
+		env := &predEnv{pkg: fpk, wins: map[types.Object]window{}, strs: map[types.Object]string{}, p: p,
+			ints: map[types.Object]int64{}, defs: map[types.Object]ast.Expr{}}
+		env.wins[fpk.TypesInfo.Defs[fd.Type.Params.List[0].Names[0]]] = window{off: 0, length: -1, minLen: 1 << 16}
+		got, err := env.evalStmts(fd.Body.List, rc[0])
+		if err != nil {
+			r.Undecided("PFXREC", key, at, "recogniser outside the predicate grammar: "+err.Error())
+			continue
+		}
+		lit := constant.StringVal(cobj.Val())
+		want := cube{}
+		for i := 0; i < len(lit); i++ {
+			var bs byteset
+			bs.set(lit[i])
+			want[4+i] = bs
+		}
+		wd := dnf{want}
+		switch {
+		case got.equiv(wd):
+			r.OK("PFXREC", key, at, fmt.Sprintf("accepts exactly the headers whose bytes 4..%d are %q", 4+len(lit)-1, lit))
+		case wd.subsetOf(got):
+			r.Bad("PFXREC", key, at, fmt.Sprintf("accepts more than the identifier %q: %s — a segment of another kind whose identifier shares the compared bytes is taken for this one", lit, got.String()))
+		default:
+			r.Bad("PFXREC", key, at, fmt.Sprintf("does not accept every payload starting with %q (accepts %s): genuine segments are not recognised", lit, got.String()))
+		}
+	}
 }
